@@ -271,7 +271,7 @@ func scionView(buf []byte) (view string, payload []byte, vi viewInfo) {
 					Header:     slayers.PacketAuthOption{EndToEndOption: o},
 					ScionLayer: &scn,
 					PldType:    slayers.L4UDP,
-					Pld:        buf[len(buf)-int(u.Length):],
+					Pld:        append(append([]byte(nil), u.Contents...), u.Payload...), // the UDP header and payload as parsed
 				}, make([]byte, spao.MACBufferSize), mac)
 				if err == nil && bytes.Equal(mac, o.OptData[12:]) {
 					vi.auth = 1
@@ -640,6 +640,32 @@ func (w *worker) scionDatagram(rc recipe, rq *reqRec, idx int, good scionHdr) (d
 		if rc.p2%4 == 3 {
 			inner.kind = 1
 		}
+	case rc.kind == 39:
+		// the genuine response (p1 >= 10: with the genuine packet authenticator) with bytes appended BEHIND
+		// the UDP datagram: 8 filler bytes, a forged NTP header that echoes the origin timestamp and
+		// carries other times, padding - in all exactly as many bytes as the UDP length says (p1%10 = 0),
+		// one less (1), one more (2), or just the 56 bytes (3).  The parsed payload - the one NTS and
+		// the authenticator vouch for - is untouched.
+		inner = recipe{kind: 0, p2: rc.p2}
+		if rc.p1 >= 10 {
+			applyVariant(&h, vGenuine, rc.p2, rq.arrival, idx)
+		}
+		pl, _ := w.build(inner, rq, idx)
+		dg = buildSCION(h, pl)
+		l := len(pl) + 8
+		fr := lib.NewRng(uint64(rc.p2) + 4711)
+		frx := add64(ntp.Time64FromTime(rq.arrival), (50+int64(idx))<<32)
+		forged := hdr{lvm: 0x24, stratum: 2, org: rq.tx, rx: frx, tx: add64(frx, 1000*usFrac)}
+		tail := append(fr.Bytes(8), forged.bytes(fr)...)
+		switch rc.p1 % 10 {
+		case 0:
+			tail = append(tail, make([]byte, l-len(tail))...)
+		case 1:
+			tail = append(tail, make([]byte, l-len(tail))...)[:l-1]
+		case 2:
+			tail = append(tail, make([]byte, l+1-len(tail))...)
+		}
+		return append(dg, tail...), true, inner
 	case rc.kind == 38:
 		// the genuine response followed by so many bytes that the datagram exceeds the client's
 		// receive buffer by p1 bytes (p1 <= 0: fits)
@@ -819,7 +845,10 @@ func genScriptSCION(r *lib.Rng, nts bool) []recipe {
 				// host addresses that resemble the queried server's (the client's) without being it
 				s[i] = recipe{kind: 36, p1: int64(r.Intn(nHostForms) + 10*lib.Pick(r, 0, 0, 1)), p2: int64(r.Intn(1 << 16))}
 			case 4:
-				if r.Intn(3) == 0 {
+				if r.Intn(3) != 0 {
+					// bytes behind the UDP datagram
+					s[i] = recipe{kind: 39, p1: int64(lib.Pick(r, 0, 0, 0, 1, 2, 3) + 10*r.Intn(2)), p2: int64(r.Intn(1 << 16))}
+				} else {
 					// around the size of the client's receive buffer: fits exactly, one byte more, much more
 					s[i] = recipe{kind: 38, p1: lib.Pick(r, int64(0), 1, 1, 2, 811, -1), p2: int64(r.Intn(1 << 16))}
 				}
